@@ -88,6 +88,7 @@ class StartStageHandler(
         """Handle the StartStage message."""
 
         def on_stage(stage: StageExecution) -> None:
+            status_at_entry = stage.status
             try:
                 # Get upstream stages from repository (returns empty list if none)
                 upstream_stages = self.repository.get_upstream_stages(stage.execution.id, stage.ref_id)
@@ -222,6 +223,21 @@ class StartStageHandler(
                         "details": {"error": error_str},
                     }
                     fresh_stage.context["beforeStagePlanningFailed"] = True
+
+                    # Fail the stage when the row is still exactly as this
+                    # handler left it: unclaimed, or claimed here and never
+                    # planned. CompleteStage drops a NOT_STARTED stage as stale
+                    # and computes RUNNING for a claimed stage whose tasks never
+                    # started, so leaving the status alone would strand the
+                    # workflow with nothing queued.
+                    if (
+                        status_at_entry == WorkflowStatus.NOT_STARTED
+                        and fresh_stage.version == stage.version
+                        and fresh_stage.status in (WorkflowStatus.NOT_STARTED, WorkflowStatus.RUNNING)
+                        and all(t.status == WorkflowStatus.NOT_STARTED for t in fresh_stage.tasks)
+                    ):
+                        self.set_stage_status(fresh_stage, WorkflowStatus.TERMINAL)
+                        fresh_stage.end_time = self.current_time_millis()
 
                     # Atomic: store stage + push CompleteStage together
                     with self.repository.transaction(self.queue) as txn:
